@@ -68,16 +68,18 @@ AssignAsync(kd) ==
         /\ Vis([a |-> "assign", kind |-> kd, i |-> i, obs |-> ObsOf(val, c[2]), kf |-> IF Unstarted THEN {"KF_UnstartedTask"} ELSE {}])
   /\ UNCHANGED <<val, lateapply>>
 
-AssignPlain ==
-  /\ Bound /\ nasg < N /\ "plain" \in KindsA
+\* same: the value assigned is the very object the parameter holds at that moment (an override like any other)
+AssignPlain(same) ==
+  /\ Bound /\ nasg < N /\ (IF same THEN "same" ELSE "plain") \in KindsA
   /\ LET i == nasg + 1
+         nv == IF same THEN val ELSE 3000 + i
          c == IF hasref # 0 THEN CancelT(aref, task, fut, ready) ELSE <<task, fut, ready>>
-     IN /\ nasg' = i /\ kind' = [kind EXCEPT ![i] = "plain"]
+     IN /\ nasg' = i /\ kind' = [kind EXCEPT ![i] = IF same THEN "same" ELSE "plain"]
         /\ hasref' = 0 /\ aref' = 0
         /\ task' = c[1] /\ fut' = c[2] /\ ready' = c[3]
-        /\ val' = 3000 + i
+        /\ val' = nv
         /\ tainted' = (tainted \/ Unstarted)
-        /\ Vis([a |-> "assign", kind |-> "plain", i |-> i, obs |-> ObsOf(3000 + i, c[2]), kf |-> IF Unstarted THEN {"KF_UnstartedTask"} ELSE {}])
+        /\ Vis([a |-> "assign", kind |-> IF same THEN "same" ELSE "plain", i |-> i, obs |-> ObsOf(nv, c[2]), kf |-> IF Unstarted THEN {"KF_UnstartedTask"} ELSE {}])
   /\ UNCHANGED <<lateapply>>
 
 Resolve(i, k) ==
@@ -144,7 +146,7 @@ Tick ==
             /\ ready' = r0 /\ Vis([a |-> "tick", t |-> t, what |-> "noop", obs |-> ObsOf(val, fut), kf |-> {}])
             /\ UNCHANGED <<val, kind, nasg, hasref, aref, task, fut, tainted, lateapply>>
 
-Next == (\E kd \in {"coro", "gen", "bad"} : AssignAsync(kd)) \/ AssignPlain \/ (\E i \in Slots, k \in 1..2 : Resolve(i, k)) \/ Tick
+Next == (\E kd \in {"coro", "gen", "bad"} : AssignAsync(kd)) \/ (\E same \in BOOLEAN : AssignPlain(same)) \/ (\E i \in Slots, k \in 1..2 : Resolve(i, k)) \/ Tick
 Spec == Init /\ [][Next]_vars
 
 \* ---- C10 ------------------------------------------------------------------------------------
@@ -153,11 +155,11 @@ Quiescent == ready = <<>> /\ \A i \in Slots : ~Live(i) \/ (task[i].st = "wait" /
 AllDone(i) == \A k \in 1..NY(i) : fut[i][k] = "done"
 Expected == IF nasg = 0 THEN 0 ELSE IF kind[nasg] = "plain" THEN 3000 + nasg ELSE Result(nasg, NY(nasg))
 \* once everything has completed the parameter holds the result of the most recent assignment
-LatestWins == (~tainted /\ Quiescent /\ nasg > 0 /\ kind[nasg] # "bad" /\ (kind[nasg] # "plain" => AllDone(nasg))) => val = Expected
+LatestWins == (~tainted /\ Quiescent /\ nasg > 0 /\ kind[nasg] \notin {"bad", "same"} /\ (kind[nasg] # "plain" => AllDone(nasg))) => val = Expected
 \* a result of a superseded reference is never applied after a newer assignment
 NoLateApply == ~tainted => ~lateapply
 \* a plain value cancels pending references for good: afterwards no task of an older assignment is live
-PlainCancels == (~tainted /\ nasg > 0 /\ kind[nasg] = "plain" /\ ready = <<>>) => \A i \in Slots : ~Live(i)
+PlainCancels == (~tainted /\ nasg > 0 /\ kind[nasg] \in {"plain", "same"} /\ ready = <<>>) => \A i \in Slots : ~Live(i)
 TypeOK == steps \in 0..MaxSteps /\ nasg \in 0..N
 
 Emit == (RecordHist /\ steps = MaxSteps) => PrintT(<<"BEHAVIOUR", ToJson([steps |-> hist, tainted |-> tainted])>>)
